@@ -99,11 +99,13 @@ def _typestate(chk: Check, ad) -> None:
                            "the current value" % f.qualname, 3)
                     if is_getter:
                         # the decoded value comes from the container
-                        ok = isinstance(n.value, ast.Call) and \
-                            attr_path(n.value.func) == (me, "_lazy_container", "get_data")
+                        al_g = local_aliases(f.node)
+                        v_ = al_g.get(n.value.id, n.value) if isinstance(n.value, ast.Name) else n.value
+                        ok = isinstance(v_, ast.Call) and \
+                            expand_path(v_.func, al_g) == (me, "_lazy_container", "get_data")
                         chk.ob("R14.1", "AuxData.data:decodes-from-container", ok, f.loc(n),
                                "the data getter must decode through the held container (get_data)", 2)
-    chk.floor("R14.1", "writes of _data/_lazy_container in AuxData", n_writes, 6)
+    chk.floor("R14.1", "writes of _data/_lazy_container in AuxData", n_writes, 4)
     # nobody outside AuxData writes the two fields
     for f in repo.all_functions():
         if f.cls is ad:
@@ -117,7 +119,13 @@ def _typestate(chk: Check, ad) -> None:
     if g is None:
         raise AnalysisError("anchor vanished: AuxData.data")
     rets = [r for r in walk_no_nested(g.node) if isinstance(r, ast.Return)]
-    ok = bool(rets) and all(r.value is not None and attr_path(r.value) == (g.self_name, "_data") for r in rets)
+    # self._data, or the local the decoded value was bound to before being stored there
+    stored_from = {n.value.id for n in walk_no_nested(g.node) if isinstance(n, ast.Assign)
+                   and isinstance(n.value, ast.Name) and n.value.id in local_aliases(g.node)
+                   and any(attr_path(t) == (g.self_name, "_data") for t in n.targets)}
+    ok = bool(rets) and all(r.value is not None and (
+        attr_path(r.value) == (g.self_name, "_data") or
+        (isinstance(r.value, ast.Name) and r.value.id in stored_from)) for r in rets)
     chk.ob("R14.1", "AuxData.data:returns-decoded", ok, g.loc(), "the data getter must return self._data", 1)
     # raw_data of the container
     lc = repo.cls("_LazyDataContainer")
@@ -147,6 +155,10 @@ def _to_protobuf(chk: Check, ad) -> None:
     me = f.self_name
     cfg = CFG(f.node)
     al = local_aliases(f.node)
+
+    def ap(e: ast.AST):
+        # attribute path with locals assigned once replaced by what they stand for
+        return expand_path(e, al)
     data_writes = []
     tn_writes = []
     for n in walk_no_nested(f.node):
@@ -161,7 +173,7 @@ def _to_protobuf(chk: Check, ad) -> None:
         if i.kind != "test" or not isinstance(i.ast, ast.Compare) or len(i.ast.ops) != 1:
             continue
         t = i.ast
-        l, r = attr_path(t.left), attr_path(t.comparators[0])
+        l, r = ap(t.left), ap(t.comparators[0])
         if isinstance(t.ops[0], (ast.Is, ast.IsNot)) and l == (me, "_lazy_container") and \
                 isinstance(t.comparators[0], ast.Constant) and t.comparators[0].value is None:
             for b in cfg.g.successors(n):
@@ -174,8 +186,8 @@ def _to_protobuf(chk: Check, ad) -> None:
                 if bi.kind == "branch" and bi.value == isinstance(t.ops[0], ast.Eq):
                     same.add(b)
     raw = [w for w in data_writes if isinstance(w.value, ast.Call)
-           and attr_path(w.value.func) == (me, "_lazy_container", "get_raw_data")
-           or (isinstance(w.value, ast.Attribute) and attr_path(w.value) == (me, "_lazy_container", "raw_data"))]
+           and ap(w.value.func) == (me, "_lazy_container", "get_raw_data")
+           or (isinstance(w.value, ast.Attribute) and ap(w.value) == (me, "_lazy_container", "raw_data"))]
     enc = [w for w in data_writes if w not in raw]
     for w in raw:
         wn = cfg.node_of(w)
@@ -295,8 +307,13 @@ def _unknown(chk: Check) -> None:
                 (isinstance(v, ast.Constant) and v.value is None)
         complete = bool(binds) and all(whole(b.value) for b in binds)
         # and the stream handed to _decode_tree is a fresh BytesIO over that variable
-        fresh = all(isinstance(c.args[0], ast.Call) and (dotted(c.args[0].func) or ("",))[-1] == "BytesIO"
-                    and attr_path(c.args[0].args[0]) == (arg.id,) for c in calls if c.args)
+        al_d = local_aliases(d.node)
+
+        def stream_of(e: ast.AST) -> ast.AST:
+            return al_d.get(e.id, e) if isinstance(e, ast.Name) else e
+        fresh = all(isinstance(stream_of(c.args[0]), ast.Call)
+                    and (dotted(stream_of(c.args[0]).func) or ("",))[-1] == "BytesIO"
+                    and attr_path(stream_of(c.args[0]).args[0]) == (arg.id,) for c in calls if c.args)
         ok = complete and fresh
         why = "buffer variable %s: complete=%s fresh-stream=%s" % (arg.id, complete, fresh)
     chk.ob("R14.4", "Serialization.decode:unknown-codec-keeps-all-bytes", ok, d.loc(),
